@@ -286,3 +286,74 @@ func (t *tr) xferFunc(d *ast.FuncDecl) (why string) {
 	t.order = append(t.order, name)
 	return ""
 }
+
+// xferConv translates one of the nine XAsY(src *Buffer[S], dst *Buffer[D]) int functions whole: the written buffer
+// (the one `SetSample` is called on) is threaded as `b`, the other is a read-only header `p_<name>`; samples are used
+// at their static class (`typed`: float cells are decoded / encoded with the bit patterns of their format), integer
+// division by a non-constant raises Go's division-by-zero panic. Returns "" or the reason it cannot.
+func (t *tr) xferConv(d *ast.FuncDecl) (why string) {
+	obj := t.info.Defs[d.Name]
+	name := leanName(obj) + "_fn"
+	defer func() {
+		if r := recover(); r != nil {
+			switch u := r.(type) {
+			case unsupported:
+				why = u.msg
+			case needRes:
+				why = "needs the res shape: " + u.why
+			default:
+				panic(r)
+			}
+		}
+	}()
+	sig := obj.Type().(*types.Signature)
+	tp, ok := t.typeParams(sig)
+	if !ok {
+		fail("type parameters")
+	}
+	if rt := t.tyOf(sig.Results().At(0).Type()); rt.c != cInt || sig.Results().At(0).Name() != "" {
+		fail("result")
+	}
+	// the written buffer: the receiver of SetSample calls
+	var written types.Object
+	ast.Inspect(d.Body, func(n ast.Node) bool {
+		if call, ok := n.(*ast.CallExpr); ok {
+			if sel, ok := call.Fun.(*ast.SelectorExpr); ok && (sel.Sel.Name == "SetSample" || sel.Sel.Name == "AppendSample" || sel.Sel.Name == "Append") {
+				if id, ok := sel.X.(*ast.Ident); ok {
+					o := t.info.Uses[id]
+					if written != nil && written != o {
+						fail("two written buffers")
+					}
+					written = o
+				}
+			}
+		}
+		return true
+	})
+	bm := &bufCtx{res: true, xfer: true, typed: true, slices: map[types.Object]string{}, roBufs: map[types.Object]string{}}
+	cnt := 0
+	en := env{vars: map[types.Object]string{}, n: &cnt, hv: "h", bv: "b"}
+	params := tp + " (h : Heap) (b : Buf)"
+	for i := 0; i < sig.Params().Len(); i++ {
+		v := sig.Params().At(i)
+		if !isBufferPtr(v.Type()) {
+			fail("parameter %s", v.Name())
+		}
+		if v == written || (written == nil && i == sig.Params().Len()-1) {
+			bm.bufObj = v
+			continue
+		}
+		bm.roBufs[v] = "p_" + v.Name()
+		params += fmt.Sprintf(" (p_%s : Buf)", v.Name())
+	}
+	if bm.bufObj == nil {
+		fail("no written buffer parameter")
+	}
+	b := &body{t: t, bm: bm}
+	text := b.stmts(d.Body.List, nil, en, "  ")
+	def := fmt.Sprintf("/-- func.%s, whole (transfer shape; `b` is %s) -/\n@[gen] def %s%s : Res (Buf × Int) :=\n%s\n", obj.Name(), bm.bufObj.Name(), strings.TrimPrefix(name, "Sig.Gen."), params, text)
+	t.shape[name] = "convfn"
+	t.text[name] = def
+	t.order = append(t.order, name)
+	return ""
+}
